@@ -193,3 +193,20 @@ Theorem write_succeeds_iff_every_field_fits : forall specs vals,
   (forall i f v, nth_error specs i = Some f -> nth_error vals i = Some v -> exists s, fmt_field f v = Ok s).
 Proof. exact write_ok_iff_fields_ok. Qed.
 Print Assumptions write_succeeds_iff_every_field_fits.
+
+(** the written line has exactly the width of the fields that were written: never longer
+    than the record, and exactly the record's width when no value is missing *)
+Theorem written_line_length : forall specs vals line, write_values specs vals = Ok line ->
+  length line = list_sum (firstn (length vals) (map width specs)) /\
+  (length line <= list_sum (map width specs))%nat /\
+  ((length specs <= length vals)%nat -> length line = list_sum (map width specs)).
+Proof. exact written_line_length_exact. Qed.
+Print Assumptions written_line_length.
+
+(** dropping trailing values: the shorter list is written too, as the same leading fields --
+    the line of the full list is the line of the first k values followed by the rest *)
+Theorem shorter_list_writes_same_leading_fields : forall specs vals l k, write_fields specs vals = Ok l ->
+  write_fields specs (firstn k vals) = Ok (firstn k l) /\
+  concat l = (concat (firstn k l) ++ concat (skipn k l))%list.
+Proof. exact write_prefix. Qed.
+Print Assumptions shorter_list_writes_same_leading_fields.
